@@ -166,7 +166,9 @@ class Scheduler:
             return local_trace
 
         def global_trace(frame, event, arg):
-            if event == "call" and frame.f_code.co_filename.startswith(roots):
+            # module-level code of the library is not a pre-emption point: it runs when a compiled function is
+            # specialised for a new signature or a lazy import happens -- once per *process*, not per call
+            if event == "call" and frame.f_code.co_filename.startswith(roots) and frame.f_code.co_name != "<module>":
                 return local_trace
             return None
 
